@@ -54,7 +54,7 @@ P = {'id': 'C15',
              'zstd / lz4_flex / base64 / bincode crate internals (exercised through the wrappers only)',
              'a panic is modelled where the checked (dev) profile panics: arithmetic overflow, division by zero, out-of-range slice/index, capacity overflow; counters bounded by '
              'the slice length are plain additions; memory safety of unsafe code is not modelled (observed by the oracle as SIGSEGV/SIGBUS only)',
-             'the decoder loops of the Huffman models run min(expected length, 8 * input + 1) times - what the code does when every symbol costs at least one bit (guaranteed by the constructors and, since fix 0fcb2c4, by deserialize); '
+             'the decoder loops of the Huffman models run min(expected length, 8 * input + 1) times - what the code does when every symbol costs at least one bit (guaranteed by the constructors and, since fix 7993515, by deserialize); '
              'a fuel-exhausted round-robin loop of decode_xN is reported as an error, not as non-termination'],
  'assumptions': ['usize is 64 bits; inputs shorter than 2^60 bytes (2^58 for ContextualHuffmanEncoder::deserialize; beyond that count * 8 resp. tree_count * 80 can exceed isize::MAX)',
                  'byte strings are lists of numbers below 256 where a theorem says bytes_ok; trained tables are arbitrary up to the stated side condition (rANS: frequencies sum to at most 4096; contextual encoder: at least one tree, map indices below the tree count)',
